@@ -232,6 +232,8 @@ pub fn persist_temp_file<P: AsRef<Path>>(
 ) -> io::Result<File> {
     // Ensure persisted file content is flushed to disk.
     temp_file.as_file().sync_data()?;
+    #[cfg(jj_vcs_jj_verif)]
+    crate::verif_hooks::point("file.persist", &new_path.as_ref().to_string_lossy());
     temp_file
         .persist(new_path)
         .map_err(|PersistError { error, file: _ }| error)
@@ -246,6 +248,8 @@ pub fn persist_content_addressed_temp_file<P: AsRef<Path>>(
     // Ensure new file content is flushed to disk, so the old file content
     // wouldn't be lost if existed at the same location.
     temp_file.as_file().sync_data()?;
+    #[cfg(jj_vcs_jj_verif)]
+    crate::verif_hooks::point("file.persist", &new_path.as_ref().to_string_lossy());
     if cfg!(windows) {
         // On Windows, overwriting file can fail if the file is opened without
         // FILE_SHARE_DELETE for example. We don't need to take a risk if the
